@@ -11,6 +11,7 @@ import VC2.Model.AutofillDriver
 import VC2.Model.SerdesDriver
 import VC2.Model.PictureDriver
 import VC2.Model.SliceFitDriver
+import VC2.Model.SeqHeaderDriver
 open VC2 VC2.Gen
 
 def parseInts (ws : List String) : Option (List Int) :=
@@ -45,6 +46,7 @@ def step (line : String) : String :=
   | "sd" :: rest => VC2.Model.Serdes.handleSd rest
   | "fr" :: rest => VC2.Model.Picture.handleFr rest
   | "sl" :: rest => VC2.Model.SliceFit.handleSl rest
+  | "so" :: rest => VC2.Model.SeqHeader.handleSo rest
   | "dc" :: rest => VC2.Model.Picture.handleDc rest
   | "ff" :: rest => VC2.Model.FileFormat.handleFf rest
   | "vs" :: rest => VC2.Model.Constraint.handleVs rest
